@@ -99,7 +99,7 @@ _flat = jitdiff.flat
 SENS_FACTOR = 8.0
 
 
-def compare(py, jit, sens=None):
+def compare(py, jit, sens=None, floor=0.0):
     """-> (verdict, detail)   verdict in same/differs/structure; detail = worst diff/allowed when same"""
     a, b = _flat(py), _flat(jit)
     if len(a) != len(b):
@@ -133,11 +133,18 @@ def compare(py, jit, sens=None):
         if d == 0.0:
             continue
         scale = float(np.abs(xa[m]).max())
-        allowed = TOL * scale + SENS_FACTOR * float(sl or 0.0)
+        allowed = TOL * max(scale, floor) + SENS_FACTOR * float(sl or 0.0)
         if allowed == 0.0 or d > allowed:
             return "differs", f"{pa}: max |jit-py| = {d:.3e}, scale {scale:.3e}, measured rounding sensitivity {float(sl or 0.0):.3e}, allowed {allowed:.3e}"
         worst = max(worst, d / allowed)
     return "same", worst
+
+
+def _magnitude(res):
+    if res[0] != "ok":
+        return None
+    vals = [float(np.abs(x[np.isfinite(x)]).max()) for _, x in _flat(res[1]) if isinstance(x, np.ndarray) and x.size and np.isfinite(x).any()]
+    return max(vals) if vals else None
 
 
 def _has_nonfinite(v):
@@ -280,6 +287,11 @@ def run(ck):
                 else:
                     ck.hit("jitclass_exercised")
                 reported = set()
+                # typical magnitude of what this function returns in this run (median over the cases): an exact
+                # 0.0 of one build against rounding noise of the other (e.g. a Lagrange polynomial at a node that
+                # falls into the neighbouring area because log(x) differs by an ulp) is judged against it
+                mags = [m for m in (_magnitude(rr[0]) for rr in rp["results"]) if m is not None and m > 0]
+                fscale = float(np.median(mags)) if mags else 0.0
                 for v, ((summ, args), (resp, postp, sens), (resj, postj, _)) in enumerate(zip(cases[fq], rp["results"], rj["results"])):
                     s_ret, s_post = sens if sens else (None, None)
                     ck.hit("jit_vs_interpreter_compared")
@@ -311,7 +323,7 @@ def run(ck):
                                 reported.add(key)
                                 ck.violation(key, f"{fq}: interpreted {resp[:2]} vs compiled {resj[:2]}", wit)
                         continue
-                    verdict, detail = compare(resp[1], resj[1], s_ret)
+                    verdict, detail = compare(resp[1], resj[1], s_ret, fscale)
                     if verdict == "same":
                         worst_rel[fq] = max(worst_rel.get(fq, 0.0), detail)
                     # post-call state of array arguments (in-place updates, caches)
